@@ -24,10 +24,19 @@ func (ex *Exec) binop(st *State, op token.Token, a, b Value, ta, tb types.Type) 
 		case token.SUB:
 			return Complex{fpBin("fp.sub", x.Re, y.Re), fpBin("fp.sub", x.Im, y.Im)}, true
 		case token.MUL:
-			re := fpBin("fp.sub", fpBin("fp.mul", x.Re, y.Re), fpBin("fp.mul", x.Im, y.Im))
-			im := fpBin("fp.add", fpBin("fp.mul", x.Re, y.Im), fpBin("fp.mul", x.Im, y.Re))
-			return Complex{re, im}, true
+			// gc computes complex64 products in float64 and narrows the two results (cmd/compile ssagen:
+			// "Compute in Float64 to minimize cancellation error")
+			w := x.Re.Sort.W
+			xr, xi, yr, yi := FPConvert(x.Re, 64), FPConvert(x.Im, 64), FPConvert(y.Re, 64), FPConvert(y.Im, 64)
+			re := fpBin("fp.sub", fpBin("fp.mul", xr, yr), fpBin("fp.mul", xi, yi))
+			im := fpBin("fp.add", fpBin("fp.mul", xr, yi), fpBin("fp.mul", xi, yr))
+			return Complex{FPConvert(re, w), FPConvert(im, w)}, true
 		case token.QUO:
+			// complex64 division = complex128 division of the widened operands, narrowed (as gc does)
+			if x.Re.Sort.W == 32 {
+				q := ex.complexDiv(Complex{FPConvert(x.Re, 64), FPConvert(x.Im, 64)}, Complex{FPConvert(y.Re, 64), FPConvert(y.Im, 64)}).(Complex)
+				return Complex{FPConvert(q.Re, 32), FPConvert(q.Im, 32)}, true
+			}
 			return ex.complexDiv(x, y), true
 		case token.EQL:
 			return And(fpCmp("fp.eq", x.Re, y.Re), fpCmp("fp.eq", x.Im, y.Im)), true
